@@ -3,7 +3,7 @@ NEXT GenNext
 CONSTANTS
   StrictKeyed = FALSE
   Dev = "none"
-  Families = {"utf8", "maxlen", "scalar", "single", "shape", "long", "nest", "wide", "meta", "marker", "deep3", "deep4"}
+  Families = {"rawbool", "utf8", "maxlen", "scalar", "single", "shape", "long", "nest", "wide", "meta", "marker", "deep3", "deep4"}
   TextLens = {0, 1, 2, 255, 256, 300, 65535}
   Scalars = {}
   Keys = {}
